@@ -165,8 +165,9 @@ class Harness:
 def run(ctx):
     quick = ctx.quick
     names = sorted(set(HARNESS.values()))
-    # 1. TLC (model check of the intended readers, refutation of the as-is IVF reader, emission of the vector
-    #    space with the as-is predictions) and the five test binaries, all at the same time
+    # 1. TLC (model check of the intended readers, refutation of the pinned ("asis") IVF reader, emission of the
+    #    vector space with the predictions of the transcription of the code as it is now, Impl "current") and
+    #    the five test binaries, all at the same time
     jobs = [("mc", "Readers", "Readers_MC" if quick else "Readers_MCT", dict(workers=4 if quick else 8, timeout=560)),
             ("asis", "Readers", "Readers_asis", dict(workers=1, timeout=300)),
             ("emit", "Readers", "Readers_emit" if quick else "Readers_emitT", dict(workers=1 if quick else 1, timeout=560))]
@@ -183,7 +184,7 @@ def run(ctx):
     ctx.cov["transitions"] += a.generated
     inv, vec = counterexample(a)
     ctx.cov["asis_counterexample"] = {"rc": a.rc, "violated": inv, "vector": vec}
-    ctx.log("TLC as-is IVF reader: rc=%s violated=%s" % (a.rc, inv))
+    ctx.log("TLC as-is (pinned) IVF reader: rc=%s violated=%s" % (a.rc, inv))
     if a.rc == 0:
         ctx.notes.append("model drift: the as-is IVF reader model is no longer refuted by TLC")
     emit = r["emit"]
@@ -275,7 +276,7 @@ def run(ctx):
             fh.write(json.dumps(lines[v["id"]]) + "\n")
     ctx.viol = vlib.tlc_trace(ctx, "Readers_Trace", "Readers_Trace", trace, timeout=900)
 
-    # 5. model drift (as-is transcription vs pion), coverage, vacuity
+    # 5. model drift (transcription of the current code vs pion), coverage, vacuity
     drift, samples, compared = 0, [], 0
     for v in vecs:
         if v["mode"] == "eofdata" and v["fmt"] in ("h264", "h265"):
@@ -293,8 +294,8 @@ def run(ctx):
     ctx.cov["model_drift_compared"] = compared
     if samples:
         ctx.cov["model_drift_samples"] = samples
-        ctx.notes.append("model drift: %d of %d runs differ from the as-is transcription (not a verdict)" % (drift, compared))
-    ctx.log("as-is transcription vs pion: %d of %d runs differ" % (drift, compared))
+        ctx.notes.append("model drift: %d of %d runs differ from the transcription of the current code (not a verdict)" % (drift, compared))
+    ctx.log("transcription of the current code vs pion: %d of %d runs differ" % (drift, compared))
 
     preds = ctx.cov["predicates"]
     nopanic = sum(n for k, n in preds.items() if k.startswith("NoPanic"))
